@@ -395,14 +395,16 @@ func (e *Engine) evalModifies(fc *FnContract, args []Val, st *State) []frameLoc 
 			} else {
 				fl.keyPfx = "obj:" + typeKey(pt.Elem()) + "/"
 			}
-			if typeKey(pt.Elem()) == "bytes.Buffer" {
-				// a Buffer owns its backing array: "*b" covers the array up to its capacity
+		case "whole":
+			if pt, ok := base.T.Underlying().(*types.Pointer); ok && typeKey(pt.Elem()) == "bytes.Buffer" {
+				// b[*] for a *bytes.Buffer: the Buffer's backing array
 				bufP := Val{T: types.NewPointer(types.NewSlice(types.Typ[types.Uint8])), C: base.C, Root: RootObj, RootT: "bytes.Buffer", Path: ".buf"}
 				bv := e.load(st, bufP)
-				locs = append(locs, frameLoc{kind: "range", text: ml.Text + " (backing array)", ref: bv.ref(), keyPfx: "arr:uint8/",
-					lo: e.X.Const(0, 64), hi: e.X.BVAdd(bv.off(), bv.cp())})
+				fl.ref = bv.ref()
+				fl.kind = "deref"
+				fl.keyPfx = "arr:uint8/"
+				break
 			}
-		case "whole":
 			u, ok := base.T.Underlying().(*types.Slice)
 			if !ok {
 				bail("modifies %s: base is not a slice", ml.Text)
@@ -451,6 +453,9 @@ func (e *Engine) locAllowed(l frameLoc) *smt.Term {
 	alts := []*smt.Term{e.isFresh(e.alloc0, l.ref)}
 	if l.kind == "range" {
 		alts = append(alts, X.Ule(l.hi, l.lo))
+	}
+	if strings.HasPrefix(l.keyPfx, "arr:") {
+		alts = append(alts, X.Eq(l.ref, X.Const(0, 32))) // the array of a nil slice: nothing to write
 	}
 	for _, m := range e.frameLocs {
 		if !keyCovers(m, l.keyPfx) {
